@@ -1339,6 +1339,32 @@ def rw_macro(fi, args, spec=None):
     return edits
 
 
+def rw_forvec(fi, args, spec=None):
+    """R-FORVEC K: `for P in X {` where X is a vector of Copy elements -> `let __vK = X; let mut __jK: usize = 0;
+    while __jK < __vK.len() { let P = __vK[__jK]; __jK += 1; BODY }` (increment first, so `continue` keeps its meaning;
+    Verus for-loops do not support `continue`)."""
+    toks = fi.toks
+    src = fi.sf.src
+    edits = []
+    for a in args:
+        lp = fi.loops[int(a)]
+        if lp['kind'] != 'for':
+            raise LostAnchor(f'fn {fi.item.name}: R-FORVEC on a non-for loop')
+        i = lp['kw']
+        j = i + 1
+        while not is_id(toks[j], 'in'):
+            if toks[j].kind == 'punct' and toks[j].text == '(':
+                j = match_close(toks, j)
+            j += 1
+        pat = src[toks[i + 1].start:toks[j].start].strip()
+        expr = src[toks[j + 1].start:toks[lp['open']].start].strip()
+        n = a
+        edits.append((toks[lp['start']].start, toks[lp['start']].start, f'let __v{n} = {expr}; let mut __j{n}: usize = 0;\n', 'R-FORVEC'))
+        edits.append((toks[i].start, toks[lp['open']].start, f'while __j{n} < __v{n}.len() ', 'R-FORVEC'))
+        edits.append((toks[lp['open']].end, toks[lp['open']].end, f' let {pat} = __v{n}[__j{n}]; __j{n} += 1;', 'R-FORVEC'))
+    return edits
+
+
 def rw_dyncall(fi, args, spec=None):
     """R-DYNCALL: `(RECV)(ARGS)` (call of a `dyn Fn` object stored in a field) -> `RECV.vc_call(ARGS)`; Verus does not
     support `dyn Fn` types, the stub type of the field offers `vc_call` with the closure's assumed contract."""
@@ -1363,6 +1389,7 @@ def rw_dyncall(fi, args, spec=None):
 
 REWRITES = {
     'R-DYNCALL': rw_dyncall,
+    'R-FORVEC': rw_forvec,
     'R-FORSTEP': rw_forstep,
     'R-ITERPAIRMUT': rw_iterpairmut,
     'R-MACRO': rw_macro,
@@ -1816,6 +1843,46 @@ def _generate(unit_path, canaries=True, extra=()):
             if len(cands) != 1:
                 raise LostAnchor(f'{sf.rel}: expected exactly one fn {target} for lift, found {len(cands)}')
             fi0 = FnInfo(sf, cands[0])
+            if lift_kind == 'tail':
+                # the top-level statements of the function from the one that ends with the K-th top-level `;` to the end
+                it0 = cands[0]
+                q = it0.body_open + 1
+                n_semi = -1
+                stmt_start = q
+                b0 = None
+                while q < it0.body_close:
+                    t = sf.toks[q]
+                    if t.kind == 'punct' and t.text in ('(', '['):
+                        q = match_close(sf.toks, q)
+                    elif is_p(t, '{'):
+                        q = match_close(sf.toks, q)
+                        if not (is_p(sf.toks[q + 1], ';') or is_p(sf.toks[q + 1], '.') or is_id(sf.toks[q + 1], 'else') or is_p(sf.toks[q + 1], '?')):
+                            stmt_start = q + 1
+                    elif is_p(t, ';'):
+                        n_semi += 1
+                        if n_semi == k:
+                            b0 = stmt_start
+                            break
+                        stmt_start = q + 1
+                    q += 1
+                if b0 is None:
+                    raise LostAnchor(f'{sf.rel}: fn {target} has no top-level statement ending with `;` #{k}')
+                body = '{ ' + sf.src[sf.toks[b0].start:sf.toks[it0.body_close].start] + '}'
+                params_txt = 'tail'
+                lb = line_of(sf.src, sf.toks[b0].start) - 1
+                text = header_txt + ' ' + body
+                sf2 = SrcFile(sf.rel, text=text, line_base=lb)
+                try:
+                    sf2.toks = lex(sf2.src)
+                    sf2.items = parse_items(sf2.toks, 0, len(sf2.toks))
+                except (LexError, IndexError, AssertionError) as e:
+                    raise LostAnchor(f'lift: cannot parse lifted tail: {e}')
+                item = sf2.items[0]
+                gen.rewrites.append((f'R-LIFT tail {k} of {target} as {name}', sf.rel, lb + 1))
+                emit_fn(gen, sf2, item, spec, canary=False, qual='closure@' + target + '::')
+                if canaries and spec.canary:
+                    emit_fn(gen, sf2, item, spec, canary=True, qual='closure@' + target + '::')
+                continue
             if lift_kind == 'else':
                 # the final `else { .. }` block of the K-th `if` at the top level of the function body, as a function
                 it0 = cands[0]
